@@ -29,7 +29,7 @@ func init() {
 	engine.Register(&engine.Check{
 		ID:         "C09",
 		Technique:  "explicit-state search over socket-set histories (open orders, closes, interface toggles) on the real stack with exhaustive injection of the inbound 4-tuple alphabet after every operation, against a most-specific-match reference; stateless model checking (cooperative scheduler, all schedules) of registration/unregistration racing delivery",
-		Rule:       "sockets from {UDP bound *:P, A1:P, A2:P, A3:P(NIC2), A1:P connected to R:Q, *:P connected to R:Q; the same connected through NIC 1 explicitly, A1:P bound on NIC 1, *:P bound on NIC 2; TCP listener *:P, A1:P}: all sets of size <=3 in all open orders, then each single close; toggles promiscuous / subnet / removal of the second local address; every connected socket connecting again to the peer it already has; after each operation inject dst {A1,A2,A3,foreign,unassigned} x dport {P,P'} x src {R,R'} x sport {Q,Q'} x {UDP, TCP SYN, TCP ACK+data} on each NIC; distinct = distinct (history, packet)",
+		Rule:       "sockets from {UDP bound *:P, A1:P, A2:P, A3:P(NIC2), A1:P connected to R:Q, *:P connected to R:Q; the same connected through NIC 1 explicitly, A1:P bound on NIC 1, *:P bound on NIC 2; TCP listener *:P, A1:P}: all sets of size <=3 in all open orders, then each single close; toggles promiscuous on and off again / subnet added and removed again / removal of the second local address; every connected socket connecting again to the peer it already has; a TCP connection A1:P<-R:Q established through the listener (its segments must reach it, not the listener); after each operation inject dst {A1,A2,A3,foreign,unassigned} x dport {P,P'} x src {R,R'} x sport {Q,Q'} x {UDP, TCP SYN, TCP ACK+data} on each NIC; distinct = distinct (history, packet)",
 		Assumes:    []string{"sockets are registered with the global demultiplexer (NIC 0) except accepted TCP connections"},
 		Jobs:       c09Jobs,
 		Run:        c09Run,
@@ -91,6 +91,7 @@ type c09World struct {
 	subnet    bool
 	tcpConn   tcpip.Endpoint // established A1:P <-> R:Q (through a listener)
 	connIss   uint32
+	peerNxt   uint32
 	counter   int
 	oneNIC    bool
 	removedA2 bool
@@ -250,6 +251,40 @@ func (c *c09World) expect(p c09Pkt) (idx int, processed bool) {
 
 type c09Fail struct{ key, msg string }
 
+// connTuple: is p addressed to the established connection A1:P <- R:Q on NIC 1?
+func (c *c09World) connTuple(p c09Pkt) bool {
+	return c.tcpConn != nil && p.NIC == 1 && p.Dst == c09A1 && p.DPort == c09P && p.Src == c09R && p.SPort == c09Q
+}
+
+// establish completes a handshake R:Q -> A1:P through whichever listener matches and accepts it.
+func (c *c09World) establish() *c09Fail {
+	const piss = 91000
+	syn := ref.BuildTCP(c09Q, c09P, piss, 0, ref.SYN, 30000, ref.PadOpts(ref.OptMSS(1460)), nil, []byte(c09R), []byte(c09A1))
+	c.r.w.Inject(c.r.n, 1, ipv4.ProtocolNumber, ref.BuildIPv4([]byte(c09R), []byte(c09A1), ref.ProtoTCP, 7, 0, 0, 64, syn), "", "")
+	var iss uint32
+	found := false
+	for _, d := range c.r.Collect() {
+		if d.TCP != nil && d.TCP.Flags == ref.SYN|ref.ACK {
+			iss, found = d.TCP.Seq, true
+		}
+	}
+	if !found {
+		return &c09Fail{"harness", "no SYN-ACK for the establishing handshake"}
+	}
+	ack := ref.BuildTCP(c09Q, c09P, piss+1, iss+1, ref.ACK, 30000, nil, nil, []byte(c09R), []byte(c09A1))
+	c.r.w.Inject(c.r.n, 1, ipv4.ProtocolNumber, ref.BuildIPv4([]byte(c09R), []byte(c09A1), ref.ProtoTCP, 8, 0, 0, 64, ack), "", "")
+	c.r.Collect()
+	for _, sk := range c.socks {
+		if sk.spec.Listen {
+			if ep, _, err := sk.ep.Accept(); err == nil {
+				c.tcpConn, c.connIss, c.peerNxt = ep, iss, piss+1
+				return nil
+			}
+		}
+	}
+	return &c09Fail{"harness", "the establishing handshake produced no connection"}
+}
+
 // probe injects p and compares what happened with the reference.
 func (c *c09World) probe(p c09Pkt, hist string) *c09Fail {
 	c.counter++
@@ -264,6 +299,10 @@ func (c *c09World) probe(p c09Pkt, hist string) *c09Fail {
 		pkt = ref.BuildIPv4([]byte(p.Src), []byte(p.Dst), ref.ProtoTCP, uint16(c.counter), 0, 0, 64, pkt)
 	case "ack":
 		pkt = ref.BuildTCP(p.SPort, p.DPort, 777, 888, ref.ACK|ref.PSH, 30000, nil, payload, []byte(p.Src), []byte(p.Dst))
+		if c.connTuple(p) {
+			// the segment of the established connection: in sequence, so that delivery shows
+			pkt = ref.BuildTCP(p.SPort, p.DPort, c.peerNxt, c.connIss+1, ref.ACK|ref.PSH, 30000, nil, payload, []byte(p.Src), []byte(p.Dst))
+		}
 		pkt = ref.BuildIPv4([]byte(p.Src), []byte(p.Dst), ref.ProtoTCP, uint16(c.counter), 0, 0, 64, pkt)
 	}
 	c.r.w.Inject(c.r.n, tcpip.NICID(p.NIC), ipv4.ProtocolNumber, pkt, "", "")
@@ -273,6 +312,38 @@ func (c *c09World) probe(p c09Pkt, hist string) *c09Fail {
 		return &c09Fail{"malformed-frame", name + ": " + c.r.MonErr.Error()}
 	}
 	want, processed := c.expect(p)
+	if c.connTuple(p) && p.Kind != "udp" {
+		// the established connection is the most specific match for its own 4-tuple: data goes
+		// to it (not to the listener it came from), a SYN creates nothing new
+		var rsts, synacks int
+		for _, d := range frames {
+			if d.TCP != nil && d.TCP.Flags&ref.RST != 0 {
+				rsts++
+			}
+			if d.TCP != nil && d.TCP.Flags == ref.SYN|ref.ACK {
+				synacks++
+			}
+		}
+		if synacks != 0 {
+			return &c09Fail{"connection-bypassed", name + ": the segment belongs to the established connection, yet a listener answered with a SYN-ACK"}
+		}
+		if p.Kind == "ack" {
+			v, _, err := c.tcpConn.Read(nil)
+			if err != nil || string(v) != string(payload) {
+				return &c09Fail{"connection-missed", name + fmt.Sprintf(": in-sequence data for the established connection was not delivered to it (Read: %q, %v; %d resets emitted)", v, err, rsts)}
+			}
+			c.peerNxt += uint32(len(payload))
+		}
+		for _, sk := range c.socks {
+			if sk.spec.Listen {
+				if ep, _, err := sk.ep.Accept(); err == nil {
+					ep.Close()
+					return &c09Fail{"spurious-connection", name + ": a listener handed out a second connection for the established 4-tuple"}
+				}
+			}
+		}
+		return nil
+	}
 	// who received?
 	got := []int{}
 	for i, s := range c.socks {
@@ -395,7 +466,7 @@ func c09History(order []int, toggle string, closeIdx int, pkts []c09Pkt) (*c09Fa
 			return nil, probes, false // incompatible set
 		}
 		hist += c09Menu[m].Name + " "
-		if toggle == "remove-A2" {
+		if toggle == "remove-A2" || toggle == "establish" || toggle == "subnet-off" || toggle == "promiscuous-off" {
 			// no probes before the removal: a handshake in progress keeps a route, and a route
 			// keeps its local address alive until it is released (the repository's documented
 			// "delayed removal"), which is not what this history is about
@@ -404,6 +475,16 @@ func c09History(order []int, toggle string, closeIdx int, pkts []c09Pkt) (*c09Fa
 		if f := sweep(); f != nil {
 			return f, probes, true
 		}
+	}
+	if toggle == "establish" {
+		if f := c.establish(); f != nil {
+			return f, probes, true
+		}
+		hist += "established(A1:P<-R:Q) "
+		if f := sweep(); f != nil {
+			return f, probes, true
+		}
+		toggle = ""
 	}
 	if toggle == "reconnect" {
 		// every connected socket connects once more to the peer it already has: the attempt may
@@ -422,6 +503,31 @@ func c09History(order []int, toggle string, closeIdx int, pkts []c09Pkt) (*c09Fa
 			if f := sweep(); f != nil {
 				return f, probes, true
 			}
+		}
+		toggle = ""
+	}
+	if toggle == "subnet-off" || toggle == "promiscuous-off" {
+		// the interface owns the subnet (is promiscuous) for a while, one datagram for a foreign
+		// address inside it arrives meanwhile, then the subnet is given up (promiscuous mode is
+		// switched off) again: the foreign address is foreign again
+		sn, _ := tcpip.NewSubnet("\x0a\x00\x00\x00", "\xff\xff\xff\x00")
+		if toggle == "subnet-off" {
+			c.r.n.S.AddSubnet(1, ipv4.ProtocolNumber, sn)
+		} else {
+			c.r.n.S.SetPromiscuousMode(1, true)
+		}
+		dg := ref.BuildUDP(c09Q2, c09P2, []byte("meanwhile"), []byte(c09R2), []byte(c09Foreign))
+		c.r.w.Inject(c.r.n, 1, ipv4.ProtocolNumber, ref.BuildIPv4([]byte(c09R2), []byte(c09Foreign), ref.ProtoUDP, 77, 0, 0, 64, dg), "", "")
+		c.r.Collect()
+		if toggle == "subnet-off" {
+			c.r.n.S.RemoveSubnet(1, sn)
+		} else {
+			c.r.n.S.SetPromiscuousMode(1, false)
+		}
+		c.r.w.Settle()
+		hist += toggle + " "
+		if f := sweep(); f != nil {
+			return f, probes, true
 		}
 		toggle = ""
 	}
@@ -711,6 +817,24 @@ func c09Run(job, tier string, deadline time.Time) *engine.Result {
 			toggle string
 			close  int
 		}{"remove-A2", -1})
+		if len(ord) <= 2 {
+			variants = append(variants, struct {
+				toggle string
+				close  int
+			}{"subnet-off", -1}, struct {
+				toggle string
+				close  int
+			}{"promiscuous-off", -1})
+		}
+		for _, m := range ord {
+			if c09Menu[m].Listen {
+				variants = append(variants, struct {
+					toggle string
+					close  int
+				}{"establish", -1})
+				break
+			}
+		}
 		for _, m := range ord {
 			if c09Menu[m].Conn {
 				variants = append(variants, struct {
